@@ -41,6 +41,7 @@ EXTENDS Integers, Sequences, FiniteSets, TLC
 CONSTANTS
     Keys,          \* client addresses as produced by extractIP (strings)
     Reqs,          \* request identities, a set of naturals: bounds the requests inside the server at once
+    Kinds,         \* subset of {"plain", "ws"}: ordinary calls / websocket upgrades
     CacheSize,     \* RateLimitConfig.CacheSize  (>= 1; lru.New panics on 0, the node config refuses it)
     Burst,         \* RateLimitConfig.Burst
     Rate,          \* tokens per Tick (one Tick = 1 / RequestsPerSec... times Rate); 0 = the bucket never refills
@@ -54,7 +55,6 @@ CONSTANTS
 
 NoLim == <<"-", 0>>
 LimIds == Keys \X (0..Cardinality(Reqs))     \* limiter objects: <<key, serial>>; at most 1 cached + |Reqs| orphans per key
-Kinds == {"plain", "ws"}
 
 VARIABLES
     pc,        \* [Reqs -> {"free","get","add","allow","sem","handler"}]
